@@ -29,7 +29,15 @@ fn gen_line(r: &mut R) -> String {
                 s.push_str(&" ".repeat(1 + r.u(5)));
             }
         }
-        s.push_str(r.pick(WORDS));
+        if r.p(25) {
+            // an unbroken run mixing narrow, double-width and zero-width characters: wide characters straddle the cut
+            // points of the hard wrap at every offset
+            for _ in 0..2 + r.u(14) {
+                s.push_str(r.pick(&["a", "b", "x", "字", "中", "字", "é", "e\u{301}", "か\u{3099}"]));
+            }
+        } else {
+            s.push_str(r.pick(WORDS));
+        }
     }
     if r.p(20) {
         s.push_str(&" ".repeat(1 + r.u(3)));
@@ -103,7 +111,7 @@ impl Prop for C12 {
             };
             let html = format!("{pre}{body}{post}");
             let cfg = if r.p(70) { Cfg::rich() } else { Cfg::base(Deco::Plain) };
-            let w = 1 + r.u(60);
+            let w = if r.p(35) { 2 + r.u(10) } else { 1 + r.u(60) };
             let mut c = case(html, cfg, w, if prefix == 0 { "pre" } else { "nested-pre" });
             c.aux = format!("{prefix}|{}", logical.join("\u{1}"));
             v.push(c);
